@@ -14,8 +14,8 @@ from ..absint import AObj, Bound, MISSING, PyRaise
 from .. import markexplore as mx
 from ..markdomain import MarkerDomain
 
-PV_C = ["2.7", "3.0", "3.1", "3.6", "3.7", "3.8", "3.9", "3.10", "3.11", "4.0"]
-PFV_C = ["2.7.18", "3.0.0", "3.6.9", "3.7.0", "3.7.1", "3.7.2", "3.7.3", "3.8.0", "3.9.9", "3.10.0", "3.10.1", "3.11.0", "4.0.0"]
+PV_C = ["2.7", "3.0", "3.1", "3.2", "3.6", "3.7", "3.8", "3.9", "3.10", "3.11", "3.20", "4.0"]
+PFV_C = ["2.7.18", "3.0.0", "3.1.0", "3.1.5", "3.2.0", "3.6.9", "3.7.0", "3.7.1", "3.7.2", "3.7.3", "3.8.0", "3.9.9", "3.10.0", "3.10.1", "3.11.0", "3.20.0", "4.0.0"]
 
 
 def atoms():
@@ -34,7 +34,8 @@ def atoms():
 
 
 SIMPLE = [">=3.7", ">3.7", "<3.7", "<=3.7", "==3.7", "!=3.7", "~=3.7", "==3.*", "!=3.*", "==3.7.*", "!=3.7.*", ">=3.7.2", "<3.10.1", "~=3.7.2",
-          "==3.7.2", "!=3.7.2", ">=3", "<4", ">=3.7,<3.8", ">=3.7,<4.0", ">=3.7.0,<3.8.0", "<3.7||>=3.8", "<3.7||>3.7", ""]
+          "==3.7.2", "!=3.7.2", ">=3", "<4", ">=3.7,<3.8", ">=3.7,<4.0", ">=3.7.0,<3.8.0", "<3.7||>=3.8", "<3.7||>3.7", "",
+          ">=3.10.0", "==3.10.0", "!=3.10.0", "<3.10.0", "<=3.20.0", ">3.0.0", ">=3.10", "<3.100.0", "==3.10.*", "~=3.10.0"]
 
 
 def run(chk):
@@ -48,6 +49,15 @@ def run(chk):
     it = dom.it
     FN = "dep_logic.markers.single:MarkerExpression"
     n = 0
+    # prime: the specifier view of the *other* version-like variables is computed first for every (operator, value) text, so that a
+    # cache that forgets the variable name (the list expansion differs per variable) hands a foreign specifier to the atoms under test
+    for (name, op, value) in atoms():
+        for other in ("python_full_version", "platform_release", "python_version"):
+            if other != name:
+                try:
+                    it.getattr(dom.atom(other, op, value), "specifier")
+                except PyRaise:
+                    pass
     for (name, op, value) in atoms():
         a = dom.atom(name, op, value)
         cands = PV_C if name == "python_version" else PFV_C
